@@ -341,11 +341,14 @@ def h_no_color_history(steps):
     return h
 
 
+DTW = {'bits1100': 1100, 'hex1200': 1200}
+
+
 def h_array_repr(dtype, values):
     def h(K):
         import bitstring
         vals = [K.choice(f'v{j}', values) for j in range(2)]
-        tr = K.choice('trailing', ['', '0b1', '0b011'])
+        tr = K.choice('trailing', ['', '0b1', '0b011', '0b1' + '01' * 501 + '1'] if DTW.get(dtype, 8) > 1004 else ['', '0b1', '0b011'])
         a = bitstring.Array(dtype, vals, trailing_bits=tr if tr else None)
         r = call(lambda: repr(a))
         if not r.ok:
@@ -386,7 +389,7 @@ def conditions(tier):
     for n in ([1150] if q else [1004, 1150, 2403]):
         for lsb0 in (False, True):
             add(f"C19.pp[Bits,hex:1200,n={n}{',lsb0' if lsb0 else ''}]", h_pp('Bits', n, 'hex:1200', lsb0, ' '), f'width in [0,200] x show_offset; group of 1200 bits: more than 1000 trailing bits; {n}-bit concrete pattern', n=n, fmt='hex:1200')
-    for dtype, nbits, fmt, kind, bpg in [('uint8', 40, 'hex16', 'hex', 16), ('uint8', 40, None, None, None), ('uint8', 43, 'hex8', 'hex', 8), ('uint5', 23, 'bin5', 'bin', 5), ('uint16', 40, 'hex8', 'hex', 8),
+    for dtype, nbits, fmt, kind, bpg in [('uint8', 1104, 'hex1200', 'hex', 1200), ('uint8', 40, 'hex16', 'hex', 16), ('uint8', 40, None, None, None), ('uint8', 43, 'hex8', 'hex', 8), ('uint5', 23, 'bin5', 'bin', 5), ('uint16', 40, 'hex8', 'hex', 8),
                                          ('uint8', 40, 'bin24', 'bin', 24), ('hex8', 19, 'oct6', 'oct', 6), ('uint8', 0, 'hex8', 'hex', 8)]:
         if fmt is None:
             continue
@@ -406,6 +409,6 @@ def conditions(tier):
         if not q:
             add(f'C19.pp[BitStream,{fk},n=24,sep=_]', h_pp('BitStream', 24, fk, False, '_'), f"width in [0,200] x show_offset; format {fk!r}; separator '_'", n=24, fmt=fk)
     for dtype, values in [('uint8', [0, 1, 255]), ('int5', [-16, 0, 15]), ('float32', [0.0, -1.5, 3.25]), ('hex4', ['a', '0', 'f']), ('bool', [True, False]), ('uintle16', [1, 256]),
-                          ('bfloat', [1.0, -2.0]), ('e4m3mxfp', [0.5, 448.0])]:
+                          ('bfloat', [1.0, -2.0]), ('e4m3mxfp', [0.5, 448.0]), ('bits1100', ['0b' + '10' * 550, '0b' + '0' * 1100])]:
         add(f'C19.array-repr[{dtype}]', h_array_repr(dtype, values), 'two items from the listed values x trailing bits in {none, 1, 3 bits}')
     return conds
